@@ -16,7 +16,7 @@ Cfgs == {[a0 |-> a0, b0 |-> 0, k0 |-> 2, nl |-> 2, lrn |-> 1, lrd |-> lrd, mun |
           gn |-> 1, gd |-> 2, N |-> NSteps, train |-> tr, val |-> vl, val_interval |-> 2, ckint |-> ck, kill |-> kl] :
             a0 \in {1, -1}, lrd \in {4, 2}, mun \in {0, 1}, ss \in {0, 1, 2}, fr \in {1, 2}, tr \in TrainSets, vl \in {<<>>, <<ValC>>},
             ck \in (IF CkMode THEN {1, 2} ELSE {0}), kl \in (IF CkMode THEN 1..(NSteps - 1) ELSE {0})}
-Valid(cfg) == (cfg.ssize = 0 => cfg.freq = 1) /\ (CkMode => cfg.kill % cfg.ckint = 0 /\ cfg.val = <<>>)
+Valid(cfg) == (cfg.ssize = 0 => cfg.freq = 1) /\ (CkMode => (cfg.kill - 1) % cfg.ckint = 0 /\ cfg.val = <<>>)
 RECURSIVE TrajFits(_, _)
 TrajFits(cfg, n) == IF n = 0 THEN TRUE ELSE TrajFits(cfg, n - 1) /\ StateFits(After(cfg, n))
 Scen == {[cfg |-> c] : c \in {x \in Cfgs : Valid(x) /\ TrajFits(x, NSteps)}}
